@@ -270,10 +270,12 @@ package allocation
 //@   loop 1 invariant -1 <= rangeindex && rangeindex < len(ranged()) && (forall j :: 0 <= j && j < len(ranged()) ==> ranged()[j] != nil && ranged()[j].lifetimeTimer != nil)
 //@   loop 1 invariant forall k :: haskey(a.permissions, k) ==> old(haskey(a.permissions, k))
 //@   loop 1 invariant [C15:every-listed-permission-removed] permRemovals == old(permRemovals) + rangeindex + 1
+//@   loop 1 invariant [C15:listed-permission-timers-stopped] forall j :: 0 <= j && j <= rangeindex ==> !armed(ranged()[j].lifetimeTimer)
 //@   loop 2 invariant a.fiveTuple != nil && a.log != nil && chansWF(a) && closed(a.closed) && !armed(a.lifetimeTimer) && socketsClosed >= old(socketsClosed) && (forall k :: !haskey(a.tcpConnections, k))
 //@   loop 2 invariant -1 <= rangeindex && rangeindex < len(ranged()) && (forall j :: 0 <= j && j < len(ranged()) ==> ranged()[j] != nil && ranged()[j].lifetimeTimer != nil) && (len(ranged()) == 0 || (base(ranged()) != base(a.channelBindings) && base(ranged()) < allocTop))
 //@   loop 2 invariant forall k :: haskey(a.permissions, k) ==> old(haskey(a.permissions, k))
 //@   loop 2 invariant [C15:every-listed-binding-removed] chanRemovals == old(chanRemovals) + rangeindex + 1
+//@   loop 2 invariant [C15:listed-binding-timers-stopped] forall j :: 0 <= j && j <= rangeindex ==> !armed(ranged()[j].lifetimeTimer)
 //@   loop 2 invariant base(a.channelBindings) == old(base(a.channelBindings)) || base(a.channelBindings) >= old(allocTop)
 //@ func (*Manager).DeleteAllocation
 //@   requires fiveTuple != nil && m.log != nil
@@ -415,8 +417,6 @@ package allocation
 //@   lockonly
 //@ func (*Manager).CreateReservation$1
 //@   lockonly
-//@ func (*Manager).RemoveTCPConnection
-//@   lockonly
 
 //@      // ---- C15: closing the manager closes every allocation, whatever errors individual Close calls return.
 //@      // `assume-callee-pre`: that every stored allocation satisfies Close's precondition (closeReady) while the others
@@ -443,3 +443,13 @@ package allocation
 //@   lockonly
 //@ func NewManager
 //@   lockonly
+
+//@      // ---- C16: the manager-level removal takes the connection id out of whichever allocation holds it
+//@ func (*Manager).RemoveTCPConnection
+//@   requires m != nil && allocsNonNil(m) && !held(m.lock) && !rheld(m.lock)
+//@   requires forall k :: haskey(m.allocations, k) ==> tcpConnsWF(valat(m.allocations, k)) && valat(m.allocations, k).log != nil
+//@   ensures [C15,C16:removed-everywhere] forall k :: haskey(m.allocations, k) ==> !has(valat(m.allocations, k).tcpConnections, connectionID)
+//@   loop 0 invariant held(m.lock) && m != nil && allocsNonNil(m)
+//@   loop 0 invariant forall k :: haskey(m.allocations, k) ==> tcpConnsWF(valat(m.allocations, k)) && valat(m.allocations, k).log != nil
+//@   loop 0 invariant forall k :: seenkey(k) && haskey(m.allocations, k) ==> !has(valat(m.allocations, k).tcpConnections, connectionID)
+//@   loop 0 invariant forall k :: haskey(m.allocations, k) == old(haskey(m.allocations, k)) && valat(m.allocations, k) == old(valat(m.allocations, k))
